@@ -69,8 +69,10 @@ enum : int
                           ///< values = n, dx[n], dg[n], H before[n*n], H after[n*n] as stored)
     ev_lbfgs_direction,   ///< L-BFGS: two-loop recursion done (object = the solver,
                           ///< values = n, history size h, g[n], s_0..s_{h-1}[n] (oldest first), y_0..y_{h-1}[n], r[n] = H*g)
-    ev_ellipsoid_update   ///< ellipsoid method: centre and shape matrix updated (object = the solver,
+    ev_ellipsoid_update,  ///< ellipsoid method: centre and shape matrix updated (object = the solver,
                           ///< values = n, f(x), best f, gHg, x before[n], g[n], H before[n*n], x after[n], H after[n*n])
+    ev_cgd_direction      ///< conjugate gradient descent: direction chosen (object = the solver,
+                          ///< values = n, beta, restarted (0/1), orthotest, previous g[n], previous d[n], current g[n], chosen d[n])
 };
 } // namespace nano::verif
 
